@@ -12,7 +12,11 @@
                              the task reads pre-launch contents only (CSR rows `i` and `k` disjoint);
      * `qLD_acc_matrix_view` the same in matrix terms: it is exactly the elementary update of `LDL.factorLevel`;
      * `qLDiag_div_writes`   `D[i] := 1 / L[diag i]`;
-     * `mul_m_writes`        `res[w, i] := Σ_{k ∈ [rowadr i, rowadr (i+1))} M[w, madr k] · vec[w, col k]` (ℝ).
+     * `mul_m_writes`        `res[w, i] := Σ_{k ∈ [rowadr i, rowadr (i+1))} M[w, madr k] · vec[w, col k]` (ℝ);
+     * `M_writes_in_row`, `tendon_armature_writes_in_row`   every cell an `_M` / `_tendon_armature` task writes lies in the
+                             CSR row `[M_rowadr i, M_rowadr i + M_rownnz i)` of its own dof (all models, all fuel, every K);
+     * `small_cholesky_solve_2_partial`, `small_cholesky_solve_3_partial`   the generated scalar Cholesky back-substitution
+                             `_small_cholesky_solve` solves `(Uᵀ U) x = y` for block sizes 2 and 3 (general size: MISSING).
   2. the level-parallel model `Model/LDL.lean` of `_factor_i_sparse` + `_solve_LD_sparse_fused`, over ℝ, for EVERY
      number of dofs, EVERY forest (given by `depth` and the proper-ancestor relation `anc`), every level count:
      * `sparse_factor_correct`   symmetric `M` with the forest's sparsity pattern and non-vanishing pivots:
@@ -33,11 +37,14 @@
      * launch-level composition (a launch = the net effect of its tasks) is argued in `Model/LDL.lean`, not derived from
        a launch semantics; that the pivots of an SPD matrix are positive; that the CRB matrix `_M` assembles is SPD
        (physics); float32 round-off (the harness measures backward errors).
-  DEFECT found on the way (Props/C21Witness.lean): `_M` and `_tendon_armature` walk `dof_parentid` past the end of the
-     CSR row for MuJoCo's "simple" dofs (`M_rownnz = 1` although `dof_parentid ≥ 0`).
+  HISTORY: this check found that `_M` and `_tendon_armature` walked `dof_parentid` past the start of the CSR row of
+     MuJoCo's "simple" dofs (`M_rownnz = 1` although `dof_parentid ≥ 0`; tendon armature landed on another dof's diagonal).
+     Repaired in /repo commit "fix: _M and _tendon_armature walked past the row of a simple dof …"; the former witnesses are
+     replaced by `M_writes_in_row`, `tendon_armature_writes_in_row` (all inputs) and the two `*_repaired` scenarios.
 -/
 import MjwVerif.Lemmas.C21Factor
 import MjwVerif.Lemmas.C21Kernels
+import MjwVerif.Lemmas.C21Rows
 
 set_option linter.unusedVariables false
 
@@ -123,6 +130,132 @@ theorem mul_m_writes (rowadr col madr : Int → Int) (M_in vec : Int → Int →
   cases chk <;> cases skip w <;> simp
 
 end kernels
+
+/-! ## 1b. dense path: the generated scalar Cholesky back-substitution (fixed block sizes) -/
+
+section dense
+
+/-- `_small_cholesky_solve` with `block_size = 2` (`U` = packed upper factor, `U i j` at `factor_adr + i·size + j`):
+    the values it leaves in `x_out` solve `(Uᵀ U) x = y`.  (`small_cholesky_solve_partial`: proved for sizes 2 and 3
+    by evaluating the generated loops; the general block size (≤ 6 in the code) is NOT proved.) -/
+theorem small_cholesky_solve_2_partial (u00 u01 u11 y0 y1 : ℝ) (x_out : Int → Int → ℝ) (h0 : u00 ≠ 0) (h1 : u11 ≠ 0) :
+    let L : Int → Int → ℝ := fun _ a => if a = 0 then u00 else if a = 1 then u01 else if a = 3 then u11 else 0
+    let y : Int → Int → ℝ := fun _ a => if a = 0 then y0 else y1
+    let ws := _small_cholesky_solve 2 0 0 0 L y x_out
+    let x0 := Write.lookupF ws "x_out" [0, 0] (x_out 0 0)
+    let x1 := Write.lookupF ws "x_out" [0, 1] (x_out 0 1)
+    (u00 * u00) * x0 + (u00 * u01) * x1 = y0 ∧ (u00 * u01) * x0 + (u01 * u01 + u11 * u11) * x1 = y1 := by
+  intro L y ws x0 x1
+  simp only [x0, x1, ws, _small_cholesky_solve, forRange, L, y]
+  simp [Write.lookupF, List.range_succ]
+  constructor <;> field_simp <;> ring
+
+/-- the same for `block_size = 3` (inner loops with more than one iteration) -/
+theorem small_cholesky_solve_3_partial (u00 u01 u02 u11 u12 u22 y0 y1 y2 : ℝ) (x_out : Int → Int → ℝ)
+    (h0 : u00 ≠ 0) (h1 : u11 ≠ 0) (h2 : u22 ≠ 0) :
+    let L : Int → Int → ℝ := fun _ a => if a = 0 then u00 else if a = 1 then u01 else if a = 2 then u02
+      else if a = 4 then u11 else if a = 5 then u12 else if a = 8 then u22 else 0
+    let y : Int → Int → ℝ := fun _ a => if a = 0 then y0 else if a = 1 then y1 else y2
+    let ws := _small_cholesky_solve 3 0 0 0 L y x_out
+    let x0 := Write.lookupF ws "x_out" [0, 0] (x_out 0 0)
+    let x1 := Write.lookupF ws "x_out" [0, 1] (x_out 0 1)
+    let x2 := Write.lookupF ws "x_out" [0, 2] (x_out 0 2)
+    (u00 * u00) * x0 + (u00 * u01) * x1 + (u00 * u02) * x2 = y0
+    ∧ (u00 * u01) * x0 + (u01 * u01 + u11 * u11) * x1 + (u01 * u02 + u11 * u12) * x2 = y1
+    ∧ (u00 * u02) * x0 + (u01 * u02 + u11 * u12) * x1 + (u02 * u02 + u12 * u12 + u22 * u22) * x2 = y2 := by
+  intro L y ws x0 x1 x2
+  simp only [x0, x1, x2, ws, _small_cholesky_solve, forRange, L, y]
+  simp [Write.lookupF, List.range_succ]
+  refine ⟨?_, ?_, ?_⟩ <;> field_simp <;> ring
+
+/-- hypotheses satisfiable: `U = [[2, 1], [0, 3]]` -/
+example : (2 : ℝ) ≠ 0 ∧ (3 : ℝ) ≠ 0 := by norm_num
+
+end dense
+
+/-! ## 1c. inertia assembly stays inside the CSR row of its dof -/
+
+section rows
+variable {K : Type} [Scalar K]
+
+/-- **every cell an `_M` task writes lies in the CSR row of its own dof**, `[M_rowadr i, M_rowadr i + M_rownnz i)` —
+    all models, all fuel, every scalar type; only `1 ≤ M_rownnz i` (the row holds at least the diagonal).
+    In particular for MuJoCo's "simple" dofs (`M_rownnz = 1` although `dof_parentid ≥ 0`) the task writes its diagonal only,
+    and since the rows of distinct dofs are disjoint no two tasks of the launch touch the same cell.
+    (False before /repo commit "fix: _M and _tendon_armature walked past the row of a simple dof …"; found by this check.) -/
+theorem M_writes_in_row (dof_bodyid dof_parentid : Int → Int) (arm : Int → Int → K) (M_rownnz M_rowadr : Int → Int)
+    (cdof : Int → Int → V6 K) (crb : Int → Int → V10 K) (M_out : Int → Int → K) (s0 : Int) (fuel : Nat) (w i : Int)
+    (h1 : 1 ≤ M_rownnz i) :
+    ∀ x ∈ _M dof_bodyid dof_parentid arm M_rownnz M_rowadr cdof crb M_out s0 fuel w i,
+      InRow (M_rowadr i) (M_rownnz i) w x := by
+  unfold _M
+  have key := whileFuel_inv' (σ := List (Write K) × Int × Int)
+    (fun st => (∀ x ∈ st.1, InRow (M_rowadr i) (M_rownnz i) w x) ∧ st.2.1 ≤ M_rowadr i + M_rownnz i - 1)
+  refine (key _ _ ?_ fuel _ ?_).1
+  · rintro ⟨ws, madr, dofid⟩ ⟨hws, hm⟩ hc
+    simp only [Bool.and_eq_true, decide_eq_true_eq] at hc
+    have hm' : madr ≤ M_rowadr i + M_rownnz i - 1 := hm
+    refine ⟨all_append_one _ _ hws (inRow_mk _ _ _ _ _ _ hc.2 (by omega)), ?_⟩
+    show madr - 1 ≤ _
+    omega
+  · refine ⟨?_, Int.le_refl _⟩
+    simp only [List.nil_append]
+    intro x hx
+    rw [List.mem_singleton] at hx
+    rw [hx]
+    exact inRow_mk _ _ _ _ _ _ (by omega) (by omega)
+
+/-- **every cell a `_tendon_armature` task writes lies in the CSR row of the dof it handles**
+    (`d = ten_J_colind[ten_J_rowadr[t] + j]`), no hypotheses. -/
+theorem tendon_armature_writes_in_row (dof_parentid jnnz jadr jcol : Int → Int) (tarm : Int → Int → K)
+    (M_rownnz M_rowadr : Int → Int) (J M_out : Int → Int → K) (s0 : Int) (fuel : Nat) (w t j : Int) :
+    ∀ x ∈ _tendon_armature dof_parentid jnnz jadr jcol tarm M_rownnz M_rowadr J M_out s0 fuel w t j,
+      InRow (M_rowadr (jcol (jadr t + j))) (M_rownnz (jcol (jadr t + j))) w x := by
+  unfold _tendon_armature
+  dsimp only
+  split_ifs
+  · intro x hx; cases hx
+  · intro x hx; cases hx
+  · intro x hx; cases hx
+  · have key := whileFuel_inv' (σ := Int × Int × List (Write K) × Int × Int)
+      (fun st => (∀ x ∈ st.2.2.1, InRow (M_rowadr (jcol (jadr t + j))) (M_rownnz (jcol (jadr t + j))) w x)
+        ∧ st.2.2.2.1 ≤ M_rowadr (jcol (jadr t + j)) + M_rownnz (jcol (jadr t + j)) - 1)
+    refine (key _ _ ?_ fuel _ ?_).1
+    · rintro ⟨sparseid, ptr, ws, madr, dofid⟩ ⟨hws, hm⟩ hc
+      simp only [Bool.and_eq_true, decide_eq_true_eq] at hc
+      have hm' : madr ≤ M_rowadr (jcol (jadr t + j)) + M_rownnz (jcol (jadr t + j)) - 1 := hm
+      dsimp only
+      refine ⟨all_append_one _ _ hws (inRow_mk _ _ _ _ _ _ hc.2 (by omega)), ?_⟩
+      show madr - 1 ≤ _
+      omega
+    · exact ⟨fun x hx => (by cases hx), Int.le_refl _⟩
+
+/-- two simple dofs (rows `[0]` and `[1]`, `M_rownnz = 1`), dof 1's parent is dof 0 -/
+def parent2 : Int → Int := fun i => if i = 1 then 0 else -1
+
+/-- the scenario of the former defect witness, now positive: the `_M` task of the second simple dof writes its own
+    diagonal cell 1 only (it used to store into cell 0 = `M[0,0]` as well). -/
+theorem M_simple_dof_repaired (armature : Int → Int → K) (cdof : Int → Int → V6 K) (crb : Int → Int → V10 K)
+    (M_out : Int → Int → K) :
+    ∀ x ∈ _M (fun _ => 1) parent2 armature (fun _ => 1) (fun i => i) cdof crb M_out 1 3 0 1, x.idx = [0, 1] := by
+  intro x hx
+  obtain ⟨_, a, ha, h0, h1⟩ := M_writes_in_row (fun _ => 1) parent2 armature (fun _ => 1) (fun i => i) cdof crb M_out 1 3 0 1
+    (by decide) x hx
+  rw [ha]
+  have : a = 1 := by omega
+  rw [this]
+
+/-- the tendon scenario of the former witness (armature 2, coefficients (1, 3) over two aligned slides): the task of the
+    second dof now adds `2·3·3 = 18` to its own diagonal only; the coupling term `6` no longer lands on `M[0,0]`
+    (MuJoCo's reduced layout has no cell for it). -/
+theorem tendon_armature_simple_repaired :
+    _tendon_armature (K := ℝ) parent2 (fun _ => 2) (fun _ => 0) (fun i => i) (fun _ _ => 2) (fun _ => 1) (fun i => i)
+        (fun _ a => if a = 0 then 1 else 3) (fun _ _ => 0) 1 3 0 0 1
+      = [Write.mk "M_out" [0, 1] (WVal.f 18) WKind.aadd] := by
+  simp [_tendon_armature, whileFuel, parent2]
+  norm_num
+
+end rows
 
 /-! ## 2. the level-parallel sparse LᵀDL model (`Model/LDL.lean`), all sizes and all forests -/
 
